@@ -117,8 +117,9 @@ class VC(object):
         if not self.ctx.feasible():
             self.ctx.obligations.append(_mk_obl("vacuity/requires-satisfiable", 'refuted', detail='preconditions are contradictory'))
 
-    def ensure(self, name, f):
-        self.ctx.oblige(name, f)
+    def ensure(self, name, f, isolated=False):
+        """isolated: the clause is not assumed afterwards, so independent failures all show"""
+        self.ctx.oblige(name, f, assume_after=not isolated)
 
     def canary(self, name, f):
         """negation of something true: must NOT be provable"""
